@@ -107,6 +107,100 @@ theorem is_dropped_never_reverts (n : Nat) (ops later : List Op) (i : Nat)
   obtain ⟨evs, he⟩ := hext
   exact (linv_run n (ops ++ later)).droppedDead i (by rw [he]; exact List.mem_append_right _ h) o ho
 
+/-! ### The `upgrade` operation itself, over whole histories -/
+
+private theorem stepBody_upgrade (b : Arena) (fin : Bool) (w : Nat) (hn : b.cb.isNone = false)
+    (hw : b.holds (.weak w) = true) :
+    (b.stepBody fin (.upgrade w)) =
+      (if (b.ctx.upgrade w).2 then (({ b with ctx := (b.ctx.upgrade w).1 } : Arena).push (.strong w), "some")
+       else (({ b with ctx := (b.ctx.upgrade w).1 } : Arena), "none")) := by
+  simp only [Arena.stepBody, hn, hw, Bool.not_true, Bool.or_self, Bool.false_eq_true, if_false]
+
+/-- What the `upgrade` *operation* answers in a reachable state, when a callback is running and
+    holds the weak pointer: exactly the verdict of `Ctx.upgrade`. -/
+theorem upgrade_op_answer {a : Arena} (h : Inv a) (w : Nat) (hcb : a.cb.isSome = true)
+    (hw : a.holds (.weak w) = true) :
+    (a.step (.upgrade w)).2 = (if (a.ctx.upgrade w).2 then "some" else "none") := by
+  have hn : a.cb.isNone = false := by cases hc : a.cb <;> simp_all
+  unfold Arena.step
+  simp only [h.alive, Bool.not_true, Bool.false_eq_true, if_false]
+  rw [stepBody_upgrade { a with marked := false, alive := true } _ w hn hw]
+  split <;> rfl
+
+/-- **Never spuriously fails, at the API level and over whole histories**: after any history, an
+    `upgrade` call made by the running callback on a weak pointer it holds, whose target it could
+    also name strongly (held, in the root, or reachable through strong edges), answers `Some` —
+    in every phase, whatever the debt and the queues. -/
+theorem upgrade_op_never_spuriously_fails_run (n : Nat) (ops : List Op) (w : Nat)
+    (halive : ((Arena.new n).run ops).alive = true)
+    (hcb : ((Arena.new n).run ops).cb.isSome = true)
+    (hw : ((Arena.new n).run ops).holds (.weak w) = true)
+    (hacc : Accessible ((Arena.new n).run ops) w) :
+    (((Arena.new n).run ops).step (.upgrade w)).2 = "some" := by
+  have h := inv_run n ops halive
+  rw [upgrade_op_answer h w hcb hw, upgrade_complete h w hacc]; rfl
+
+/-- **Fails only when destructed or Sweeping, at the API level**: if the call answers `None`, the
+    target's block is still allocated (the query touched no released memory) and either its
+    destructor has run (a `dropped` event is in the log) or the arena is in its sweep phase. -/
+theorem upgrade_op_fails_only_run (n : Nat) (ops : List Op) (w : Nat)
+    (halive : ((Arena.new n).run ops).alive = true)
+    (hcb : ((Arena.new n).run ops).cb.isSome = true)
+    (hw : ((Arena.new n).run ops).holds (.weak w) = true)
+    (hnone : (((Arena.new n).run ops).step (.upgrade w)).2 = "none") :
+    ∃ o, ((Arena.new n).run ops).ctx.heap.get w = some o ∧
+      (Event.dropped w ∈ ((Arena.new n).run ops).ctx.log ∨
+        ((Arena.new n).run ops).ctx.phase = .sweep) := by
+  have h := inv_run n ops halive
+  have hmem : Ptr.weak w ∈ ((Arena.new n).run ops).temps := by
+    simpa [Arena.holds] using hw
+  obtain ⟨o, ho⟩ := query_safe h w (Or.inl hmem)
+  refine ⟨o, ho, ?_⟩
+  rw [upgrade_op_answer h w hcb hw] at hnone
+  have hu : (((Arena.new n).run ops).ctx.upgrade w).2 = false := by
+    cases hx : (((Arena.new n).run ops).ctx.upgrade w).2 with
+    | false => rfl
+    | true => rw [hx] at hnone; simp at hnone
+  rcases upgrade_fails_only _ w o ho hu with hl | hp
+  · exact Or.inl ((is_dropped_exact n ops w o ho).mp hl)
+  · exact Or.inr hp
+
+/-- **The result may be used and stored like any other `Gc`**: after a call that answered `Some`
+    the callback holds the strong pointer, and its target is `Safe` — allocated, undestructed and
+    not condemned by the sweep in progress; from here on `C01.safety` / `C03.held_until_callback_returns`
+    apply to it like to any other held pointer. -/
+theorem upgraded_pointer_is_safe_run (n : Nat) (ops : List Op) (w : Nat)
+    (halive : ((Arena.new n).run ops).alive = true)
+    (hcb : ((Arena.new n).run ops).cb.isSome = true)
+    (hw : ((Arena.new n).run ops).holds (.weak w) = true)
+    (hsome : (((Arena.new n).run ops).step (.upgrade w)).2 = "some") :
+    Ptr.strong w ∈ (((Arena.new n).run ops).step (.upgrade w)).1.temps ∧
+    Safe (((Arena.new n).run ops).step (.upgrade w)).1.ctx w := by
+  have h := inv_run n ops halive
+  have hn : ((Arena.new n).run ops).cb.isNone = false := by
+    cases hc : ((Arena.new n).run ops).cb <;> simp_all
+  have hu : (((Arena.new n).run ops).ctx.upgrade w).2 = true := by
+    rw [upgrade_op_answer h w hcb hw] at hsome
+    cases hx : (((Arena.new n).run ops).ctx.upgrade w).2 with
+    | true => rfl
+    | false => rw [hx] at hsome; simp at hsome
+  have hal' : (((Arena.new n).run ops).step (.upgrade w)).1.alive = true := by
+    unfold Arena.step
+    simp only [h.alive, Bool.not_true, Bool.false_eq_true, if_false]
+    rw [stepBody_upgrade { ((Arena.new n).run ops) with marked := false, alive := true } _ w hn hw, hu]
+    simp only [if_true]
+    unfold Arena.push; split <;> rfl
+  have h' := inv_step h (.upgrade w) hal'
+  have hmem : Ptr.strong w ∈ (((Arena.new n).run ops).step (.upgrade w)).1.temps := by
+    unfold Arena.step
+    simp only [h.alive, Bool.not_true, Bool.false_eq_true, if_false]
+    rw [stepBody_upgrade { ((Arena.new n).run ops) with marked := false, alive := true } _ w hn hw, hu]
+    simp only [if_true]
+    unfold Arena.push
+    split
+    · rename_i hh; simpa [Arena.holds] using hh
+    · simp
+  exact ⟨hmem, h'.cinv.tempsOK _ hmem⟩
 /-! "A weak pointer never keeps its target alive" is `C02.exactness` (proved: reachability there is
     strong reachability only, so a target held only weakly is destructed by two `finish_cycle`
     calls) together with `C02.shells` / `C02.shell_release` for its shell. -/
@@ -126,5 +220,15 @@ example : ((Arena.new 2).run demo).ctx.phase = .sweep := by decide
 example : (((Arena.new 2).run demo).ctx.upgrade 0).2 = false := by decide
 example : (((Arena.new 2).run demo).ctx.upgrade 1).2 = true := by decide
 example : Ptr.weak 0 ∈ ((Arena.new 2).run demo).temps := by decide
+
+/-- The API-level theorems are not vacuous: in the demo state a callback is running and holds the
+    weak pointer; the call answers `None` in the sweep phase (`upgrade_op_fails_only_run`), and one
+    step earlier in the history (before `upgrade 0`) the premises of the theorems hold too. -/
+example : ((Arena.new 2).run demo).cb.isSome = true := by decide
+example : ((Arena.new 2).run demo).holds (.weak 0) = true := by decide
+example : (((Arena.new 2).run demo).step (.upgrade 0)).2 = "none" := by decide
+/-- `some` branch: a weak pointer to the strongly held object 1, upgraded during the sweep. -/
+example : (((Arena.new 2).run (demo ++ [.readRoot 1, .downgrade 1])).step (.upgrade 1)).2 = "some" := by
+  decide
 
 end GcArena.C05
